@@ -155,6 +155,8 @@ def run(ctx: RuleContext, p: Program) -> None:
     T.rule_ts_handle(ctx, ts, 'TS-HANDLE')
     rule_fastpath_guard(ctx, p, ts, 'FASTPATH-GUARD')
     T.rule_own_store(ctx, ts, 'OWN-STORE')
+    from . import storeforms
+    storeforms.rule_pos_form(ctx, ts, 'POS-FORM')
     ctx.not_decided += ['incremental line/column arithmetic inside TokenStore.update', 'get_position summation',
                         'equality of reported and recomputed positions over histories']
     ctx.assumptions += ['Python str/list semantics', 'TokenStore.update receives the old size via token.size (checked: '
